@@ -89,7 +89,14 @@ FILTER_SPHERE = {
 PAIR_M = {'n': 1, 'ptrfields': dict({k: {'len': 'm.ngeom'} for k in ('geom_rbound', 'geom_type', 'geom_bodyid', 'geom_contype', 'geom_conaffinity', 'geom_margin', 'geom_gap')},
                                     **{k: {'len': 'm.npair'} for k in ('pair_geom1', 'pair_geom2', 'pair_margin', 'pair_gap')})}
 PAIR_D = {'n': 1, 'ptrfields': {'geom_xpos': {'len': '3 * m.ngeom'}, 'geom_xmat': {'len': '9 * m.ngeom'}, 'body_awake': {'len': 'm.nbody'}}}
-PAIR_DEFS = dict(SPHERE_DEFS, **{
+# In the pair filter the bounding test is an UNINTERPRETED predicate of (g1, g2, margin): filterCollisionPair is proved for every interpretation of it, and
+# mj_filterSphere's own unit proves that the function computes the concrete predicate SPH (bounding spheres / plane farther apart than the margin).  This
+# keeps the squared sums out of the pair filter's queries (they made two of its obligations time out now and then).
+SPHP = "lambda mg: z3.Function('bounds_farther_apart_than', z3.IntSort(), z3.IntSort(), z3.RealSort(), z3.BoolSort())(g1, g2, mg)"
+FILTER_SPHERE_ABS = {'assumed': True, 'params': {'m': GEOM_M, 'd': GEOM_D}, 'defs': {'SPH': SPHP},
+                     'requires': {'indices': '0 <= g1 and g1 < m.ngeom and 0 <= g2 and g2 < m.ngeom and m.ngeom < 2**20'}, 'assigns': [], 'pure': True,
+                     'ensures': {'discards_exactly_when_the_bounds_are_farther_apart_than_the_margin': '(result != 0) == SPH(margin)', 'zero_or_one': 'result == 0 or result == 1'}}
+PAIR_DEFS = dict({'SPH': SPHP}, **{
     'AM': "z3.Function('mj_assignMargin', z3.RealSort(), z3.RealSort())",
     'LISTED': 'exists(lambda k: startadr <= k and k < pairadr and ((m.pair_geom1[k] == g1 and m.pair_geom2[k] == g2) or (m.pair_geom1[k] == g2 and m.pair_geom2[k] == g1)))',
     'SLEEP_ON': '((m.opt.enableflags % 2**32) / mjENBL_SLEEP) % 2 == 1',        # bit test by division (math ints)
@@ -137,7 +144,7 @@ def pair_contracts():
     from contracts import prims
     c = {'__defs__': dict(prims.MARGIN_DEFS), 'filterBitmask': {'inline': True}, 'filterSphere': {'inline': True}, 'planeGeomDist': {'inline': True, 'pure_inline': True},
          'mju_sub3': BLAS3['mju_sub3'], 'mju_dot3': BLAS3['mju_dot3'],
-         'mj_filterSphere': FILTER_SPHERE, 'filterCollisionPair': FILTER_PAIR, '__callbacks__': ('mjcb_contactfilter',)}
+         'mj_filterSphere': FILTER_SPHERE_ABS, 'filterCollisionPair': FILTER_PAIR, '__callbacks__': ('mjcb_contactfilter',)}
     for k in ('mj_assignMargin', 'getMargin', 'getGap'):
         c[k] = prims.MARGIN_CONTRACTS[k]
     return c
@@ -167,3 +174,10 @@ CONTACT_COMPARE = {
     'no_error': True,
 }
 # antisymmetry as a client lemma over the contract alone: LEX(p, q) == -LEX(q, p)
+
+
+def sphere_contracts():
+    """mj_filterSphere against the concrete bounding test"""
+    c = pair_contracts()
+    c['mj_filterSphere'] = FILTER_SPHERE
+    return c
